@@ -94,7 +94,7 @@ class G:
             d = r.choice([i for i, a in enumerate(ARITY) if a == nargs])
             return ["dist", d]
         if k == "dimapped":
-            inner_n = r.randint(0, 2) if nargs > 0 else 0
+            inner_n = r.choice([0, 1, 1, 2, 2]) if nargs > 0 else 0
             inner = self.int_prog(depth - 1, inner_n)
             env = [INT] * nargs
             # argument maps returning constants make Dimap.edit fail its own type check
@@ -102,6 +102,9 @@ class G:
             pre = ["exprs"] + [self.int_expr(env, need_dep=True) for _ in range(inner_n)]
             post_env = [["tup", env], ["tup", [INT] * inner_n], INT]
             post = self.int_expr(post_env, need_dep=True) if r.random() < 0.8 else ["var", 2]
+            if inner_n > 0 and r.random() < 0.5:
+                # a return mapping that reads the transformed arguments (its second parameter)
+                post = ["add", ["proj", ["var", 1], r.randrange(inner_n)], post]
             return ["dimap", pre, inner, post]
         return self.static([INT] * nargs, depth, ret="int")
 
@@ -132,9 +135,16 @@ class G:
                 if sub[0] == "switch" and len(sub) - 1 == 3:
                     e1 = ["add", e1, ["not", self.int_expr(env, need_dep=True)]]
                 aes[0] = e1
+            if ret == "walk" and satys and satys[0] == INT and sub[0] == "dist":
+                aes[0] = ["add", ["var", 0], aes[0]]       # the density reads the carry
             binds.append((addr, sub, aes))
             env.append(srty)
-        if ret == "int":
+        if ret == "walk":
+            # a scan kernel whose outputs do not read the carry (Scan.edit_index requires the next
+            # iteration's return value to be unaffected) while its densities do: a random walk
+            env2 = [UNIT] + env[1:]
+            rexp = ["tup", self.int_expr(env2, need_dep=True), self.int_expr(env2) if r.random() < 0.7 else ["tup"]]
+        elif ret == "int":
             rexp = self.int_expr(env, need_dep=True)
         elif ret == "scan":          # (carry:int, y:int|unit)
             rexp = ["tup", self.int_expr(env, need_dep=True), self.int_expr(env) if r.random() < 0.7 else ["tup"]]
@@ -176,6 +186,16 @@ class G:
         if kind == "int":
             n = r.choice([0, 1, 1, 2, 3])
             return self.int_prog(depth, n), [INT] * n, INT
+        if kind == "vmap" and r.random() < self.focus.get("axis1", 0.0):
+            # in_axes = 1 on a matrix argument (mostly square, where slicing the wrong axis passes
+            # every shape check); the kernel reads its column through `sum`
+            n = self.length(1)
+            m = n if r.random() < 0.7 else self.length(1)
+            extra = r.choice([[], [INT], [INT]])
+            inner = self.static([["arr", m, INT]] + extra, max(depth - 1, 0))
+            axes = ["ax1"] + [r.random() < 0.5 for _ in extra]
+            atys = [["arr", m, ["arr", n, INT]]] + [["arr", n, t] if ax else t for t, ax in zip(extra, axes[1:])]
+            return ["vmap", inner, axes], atys, ["arr", n, INT]
         if kind == "vmap":
             inner, iat, irt = self.any_prog(depth - 1)
             if not iat:
@@ -197,7 +217,8 @@ class G:
         if kind == "scan":
             withx = r.random() < 0.7
             n = self.length(0)
-            kern = self.static([INT, INT if withx else UNIT], depth - 1, ret="scan")
+            kern = self.static([INT, INT if withx else UNIT], depth - 1,
+                               ret="walk" if r.random() < self.focus.get("walk", 0.0) else "scan")
             krt = expr_type([], kern[1][-1][1]) if False else None
             rt, _ = infer(kern, [INT, INT if withx else UNIT])
             atys = [INT, ["arr", n, INT] if withx else UNIT]
